@@ -333,6 +333,7 @@ func chainMode(r *sim.Rng, nBlocks int, cw *sim.CaseWriter) {
 	if err != nil {
 		panic(err)
 	}
+	edKey, _ := crypto.NewEd25519PrivateKey()
 	mk := func(chainID uint64, netID uint64) *sim.FNode {
 		g := &sim.GenesisSpec{}
 		for i := 0; i < 4; i++ {
@@ -342,6 +343,7 @@ func chainMode(r *sim.Rng, nBlocks int, cw *sim.CaseWriter) {
 			g.Accounts = append(g.Accounts, &fsm.Account{Address: sim.BLSKey(i).Addr, Amount: 5_000_000_000})
 		}
 		g.Accounts = append(g.Accounts, &fsm.Account{Address: eth.PublicKey().Address().Bytes(), Amount: 5_000_000_000})
+		g.Accounts = append(g.Accounts, &fsm.Account{Address: edKey.PublicKey().Address().Bytes(), Amount: 5_000_000_000})
 		n, e := sim.NewFNode(g.State(), func(c *lib.Config) { c.ChainId = chainID; c.P2PConfig.NetworkID = netID })
 		if e != nil {
 			panic(e)
@@ -370,7 +372,10 @@ func chainMode(r *sim.Rng, nBlocks int, cw *sim.CaseWriter) {
 				unsigned := &lib.Transaction{MessageType: tx.MessageType, Msg: tx.Msg, CreatedHeight: tx.CreatedHeight, Time: tx.Time, Fee: tx.Fee,
 					Memo: tx.Memo, NetworkId: tx.NetworkId, ChainId: tx.ChainId, Nonce: tx.Nonce}
 				if sb, e2 := lib.Marshal(unsigned); e2 == nil {
+					// (the oracle verifies for real: the library's verification cache is switched off around it)
+					crypto.DisableCache = true
 					sigok = pk.VerifyBytes(sb, tx.Signature.Signature)
+					crypto.DisableCache = false
 				}
 			}
 		}
@@ -468,6 +473,39 @@ func chainMode(r *sim.Rng, nBlocks int, cw *sim.CaseWriter) {
 		default:
 			// the same bytes on another chain
 			offer(other, nil, src, "other-chain", 2)
+		}
+	}
+	// a signature-verification cache must not confuse (key, message, signature) triples: a transfer whose signature happens to
+	// begin with the bytes of a "nonce" field (tag 0x50, a one-byte non-zero varint) is included; then a byte string nobody
+	// signed is offered: the same transaction with that nonce set and the REST of the signature as its signature - its sign bytes
+	// are the old sign bytes followed by the first two signature bytes, so key || message || signature is the same byte string
+	for _, k := range []crypto.PrivateKeyI{edKey, eth} {
+		n.Enter()
+		h := n.FSM.Height()
+		var tx *lib.Transaction
+		for attempt := 0; attempt < 4000 && tx == nil; attempt++ {
+			t, e := fsm.NewSendTransaction(k, crypto.NewAddress(sim.BLSKey(5).Addr), 777, 1, 1, 10000, h, fmt.Sprintf("g%d", attempt))
+			if e != nil {
+				break
+			}
+			cand := t.(*lib.Transaction)
+			if sg := cand.Signature.Signature; len(sg) > 2 && sg[0] == 0x50 && sg[1] >= 1 && sg[1] < 128 {
+				tx = cand
+			}
+		}
+		if tx == nil {
+			continue
+		}
+		bz, _ := lib.Marshal(tx)
+		if !offer(n, executed, bz, "fresh:signature-begins-like-a-nonce-field", 1) {
+			continue
+		}
+		executed = append(executed, bz)
+		forged := &lib.Transaction{MessageType: tx.MessageType, Msg: tx.Msg, CreatedHeight: tx.CreatedHeight, Time: tx.Time, Fee: tx.Fee, Memo: tx.Memo, NetworkId: tx.NetworkId,
+			ChainId: tx.ChainId, Nonce: uint64(tx.Signature.Signature[1]), Signature: &lib.Signature{PublicKey: tx.Signature.PublicKey, Signature: tx.Signature.Signature[2:]}}
+		fb, _ := lib.Marshal(forged)
+		if offer(n, executed, fb, "variant:signature-boundary-shifted-into-the-content", 1) {
+			executed = append(executed, fb)
 		}
 	}
 	// far outside the acceptance window: the originals once more (a pruned index would let them through; the window stops them)
